@@ -45,7 +45,7 @@ C02Failed(e) ==
 
 \* populations beyond 2^32: n = a 2^p, k = b 2^q with 10 <= k <= n - 10 (every method admits them)
 BigND(e) == Dy(BigOfInt(e.nbig.a), e.nbig.p)
-BigKD(e) == Dy(BigOfInt(e.kbig.a), e.kbig.p)
+BigKD(e) == IF "kminus" \in DOMAIN e THEN DySub(BigND(e), DyOfInt(e.kminus)) ELSE Dy(BigOfInt(e.kbig.a), e.kbig.p)
 BigFailed(e) ==
     IF e.out.tag = "panic" THEN {"C02.no_panic"}
     ELSE IF e.out.tag = "err" THEN {"C02.domain"}
